@@ -306,3 +306,48 @@ func checkC03Destinations(c *Ctx) {
 	}
 	c.expect("bounds.apd-destination-not-shared", 5)
 }
+
+// checkC03Kinds: the kind of a node accumulates by intersection (a
+// commutative, idempotent operation on bit sets), and an empty intersection of
+// two non-empty kinds is reported as a conflict on every path.
+func checkC03Kinds(c *Ctx) {
+	f := c.fn(adtP, "(*nodeContext).updateNodeType")
+	cf := newCaseFn(c, f)
+	const (
+		nb   = "BottomKind == recv.kind"
+		kb   = "BottomKind == p0"
+		empt = "BottomKind == recv.kind & p0"
+	)
+	// the stored kind is the intersection
+	stored := false
+	for _, n := range cf.g.Nodes {
+		if as, ok := n.N.(*ast.AssignStmt); ok && len(as.Lhs) == 1 && exprString(as.Lhs[0]) == "n.kind" && cf.canon(as.Rhs[0]) == "recv.kind & p0" {
+			stored = true
+		}
+	}
+	c.check("kinds.accumulate-by-intersection", f.Name, f.Decl.Pos(), stored && len(cf.missingAtoms(map[string]bool{nb: true, kb: true, empt: true})) == 0,
+		"updateNodeType must store n.kind & k (intersection: order and repetition of conjuncts do not matter) and test it for emptiness")
+	errNodes := map[int]bool{}
+	for id := range cf.g.callNodes(adtP+".(*nodeContext).reportConflict", adtP+".(*nodeContext).addErr") {
+		errNodes[id] = true
+	}
+	rets, vis := cf.walkBlocked(cf.g.Entry, map[string]bool{nb: false, kb: false, empt: true}, errNodes)
+	reported := false
+	for id := range errNodes {
+		if vis[id] {
+			reported = true
+		}
+	}
+	// no return reachable without passing an error report
+	c.check("kinds.empty-intersection-reported", f.Name, f.Decl.Pos(), reported && len(rets) == 0 && len(errNodes) > 0,
+		fmt.Sprintf("when two non-empty kinds have an empty intersection (string & int) every path must report a conflict before returning; returns reachable without a report: %v", rets))
+	rets2, vis2 := cf.walk(cf.g.Entry, map[string]bool{nb: false, kb: false, empt: false})
+	spurious := false
+	for id := range errNodes {
+		if vis2[id] {
+			spurious = true
+		}
+	}
+	c.check("kinds.compatible-kinds-no-error", f.Name, f.Decl.Pos(), !spurious && len(rets2) > 0,
+		"a non-empty intersection must not report a conflict")
+}
